@@ -298,6 +298,18 @@ def handleCall (ws : List String) : Option String := do
   let sent := match o.sent with | some b => Bytes.toHex b | none => "none"
   pure s!"ok res={showExcept o.res} open={if o.sockOpen then 1 else 0} conn={if o.connected then 1 else 0} sent={sent} unread={(Readers.joinData o.unread).length}"
 
+def showReq : Wire.Req → String
+  | .store verb k f e dta c nr =>
+    s!"store {String.fromUTF8! ⟨verb.name.toArray⟩} key={Bytes.toHex k} flags={f} exp={e} data={Bytes.toHex dta} cas={match c with | some n => toString n | none => "-"} nr={if nr then 1 else 0}"
+  | .fetch verb e ks =>
+    s!"fetch {String.fromUTF8! ⟨verb.name.toArray⟩} exp={match e with | some n => toString n | none => "-"} keys={",".intercalate (ks.map Bytes.toHex)}"
+  | .delete k nr => s!"delete key={Bytes.toHex k} nr={if nr then 1 else 0}"
+  | .arith inc k dl nr => s!"{if inc then "incr" else "decr"} key={Bytes.toHex k} delta={dl} nr={if nr then 1 else 0}"
+  | .touch k e nr => s!"touch key={Bytes.toHex k} exp={e} nr={if nr then 1 else 0}"
+  | .flushAll dl nr => s!"flush_all delay={match dl with | some n => toString n | none => "-"} nr={if nr then 1 else 0}"
+  | .version => "version"
+  | .quit => "quit"
+
 def handleStateful (d : DState) (ws : List String) : Option (DState × String) :=
   match ws with
   | "srv.reset" :: rest => do
@@ -316,7 +328,7 @@ def handleStateful (d : DState) (ws : List String) : Option (DState × String) :
   | "srv.parse" :: rest => do
     let data ← Bytes.ofHex (← arg rest "data")
     match Wire.parseAll data.length data with
-    | some reqs => pure (d, s!"ok {reqs.length} {repr reqs}".replace "\n" " ")
+    | some reqs => pure (d, "ok " ++ (if reqs = [] then "EMPTY" else " ; ".intercalate (reqs.map showReq)))
     | none => pure (d, "ok MALFORMED")
   | "spec.call" :: rest => do
     let i ← (← arg rest "id").toNat?
